@@ -15,6 +15,7 @@ import (
 	"context"
 	"fmt"
 	"io"
+	"os"
 	"reflect"
 	"regexp"
 	"runtime"
@@ -28,10 +29,28 @@ import (
 	"github.com/M2MGateway/go-smpp/pdu"
 )
 
-const (
+var (
 	quiesceCap = 3 * time.Second // a run that does not come to rest within this is reported
 	promptly   = time.Second     // C15: a blocked call must return within this after the event
+	relaxed    = false           // third run of a scenario that failed twice / VERIF_RELAXED=1: wall-clock bounds five times as wide
 )
+
+// setRelaxed widens every wall-clock bound of the harness (never a bound of the library): used for the
+// last re-run of a scenario before a timing-dependent failure is reported.
+func setRelaxed(on bool) {
+	relaxed = on
+	if on {
+		quiesceCap, promptly = 15*time.Second, 5*time.Second
+	} else {
+		quiesceCap, promptly = 3*time.Second, time.Second
+	}
+}
+
+func init() {
+	if os.Getenv("VERIF_RELAXED") == "1" {
+		setRelaxed(true)
+	}
+}
 
 var (
 	idOfTypeOnce sync.Once
@@ -118,6 +137,8 @@ type CallSpec struct {
 	P    interface{}
 	// DeadlineFails: the transport refuses SetWriteDeadline during this call (only felt when Conn.WriteTimeout > 0)
 	DeadlineFails bool
+	// WriteFails: the transport's Write fails during this call, no octet reaches the peer
+	WriteFails bool
 }
 
 type Call struct {
@@ -127,6 +148,8 @@ type Call struct {
 	Seq           int32
 	P             interface{}
 	DeadlineFails bool
+	WriteFails    bool
+	cancelled     bool   // CancelCtx was forced on it
 	term          string // Gallina term of what Send obtains before it calls the transport Write
 	ctx           context.Context
 	stop          context.CancelFunc
@@ -397,7 +420,28 @@ func (w *World) snapTerm() string {
 			rets = append(rets, fmt.Sprintf("(%d%%nat, %s)", c.ID, c.resTerm()))
 		}
 	}
-	return fmt.Sprintf("(%s, %d, %d, %d, %s)", coqList(rets), len(w.app), w.T.NWrites(), w.watchCode(), coqBool(w.doneClosed()))
+	// ... and whose frames have reached the transport so far, in order (the ids [wire_ids] of the model)
+	ws := w.T.Writes()
+	ids := make([]string, len(ws))
+	for i, wr := range ws {
+		ids[i] = coqZ(w.wireID(wr))
+	}
+	return fmt.Sprintf("((%s, %d, %d, %d, %s), %s)", coqList(rets), len(w.app), len(ws), w.watchCode(), coqBool(w.doneClosed()), coqList(ids))
+}
+
+// wireID: the caller id of a Write (99999: not attributable), -1-|seq| for a generic_nack of Watch.
+func (w *World) wireID(wr *WriteRec) int64 {
+	if wr.ByReader && wr.Full && wr.ID == idGenericNack {
+		q := int64(wr.Seq)
+		if q < 0 {
+			q = -q
+		}
+		return -1 - q
+	}
+	if c := w.callOfSeq(wr.Seq); c != nil && len(wr.Data) >= 16 {
+		return int64(c.ID)
+	}
+	return 99999
 }
 
 // callOfSeq: the call whose frame carries that sequence number (world-unique by construction).
@@ -438,14 +482,39 @@ func (w *World) obsTerm() string {
 		w.watchCode(), coqBool(w.doneClosed()), w.kaCode())
 }
 
+// groupTerm: a forced group as a Gallina list of events; an entry "@@t" stands for the list-valued term t.
+func groupTerm(g []string) string {
+	var parts []string
+	var plain []string
+	flush := func() {
+		if len(plain) > 0 {
+			parts = append(parts, coqList(plain))
+			plain = nil
+		}
+	}
+	for _, e := range g {
+		if strings.HasPrefix(e, "@@") {
+			flush()
+			parts = append(parts, e[2:])
+		} else {
+			plain = append(plain, e)
+		}
+	}
+	flush()
+	if len(parts) == 1 {
+		return parts[0]
+	}
+	return "(" + strings.Join(parts, " ++ ") + ")"
+}
+
 // CaseExpr is the closed boolean term: the model, driven through the same
 // forced events, shows the same snapshots and the same final observation.
 func (w *World) CaseExpr(variant string) string {
 	gs := make([]string, len(w.groups))
 	for i, g := range w.groups {
-		gs[i] = coqList(g)
+		gs[i] = groupTerm(g)
 	}
-	return fmt.Sprintf("sched_matches %s %s %s %s %s", variant, coqBool(w.autoApp), coqList(gs), coqList(w.snaps), w.obsTerm())
+	return fmt.Sprintf("sched_admits %s %s %s %s %s", variant, coqBool(w.autoApp), coqList(gs), coqList(w.snaps), w.obsTerm())
 }
 
 // EnvExpr: the trace the model takes for this schedule satisfies the hypotheses of C05
@@ -453,9 +522,9 @@ func (w *World) CaseExpr(variant string) string {
 func (w *World) EnvExpr(variant string) string {
 	gs := make([]string, len(w.groups))
 	for i, g := range w.groups {
-		gs[i] = coqList(g)
+		gs[i] = groupTerm(g)
 	}
-	return fmt.Sprintf("sched_env_ok %s %s %s", variant, coqBool(w.autoApp), coqList(gs))
+	return fmt.Sprintf("sched_env_admits %s %s %s %s %s", variant, coqBool(w.autoApp), coqList(gs), coqList(w.snaps), w.obsTerm())
 }
 
 // Script is the human-readable replayable form of the schedule.
@@ -515,7 +584,7 @@ func (w *World) Go(g int, specs ...CallSpec) []*Call {
 	var cs []*Call
 	w.mu.Lock()
 	for _, sp := range specs {
-		c := &Call{ID: len(w.calls), G: g, Kind: sp.Kind, Seq: sp.Seq, P: sp.P, DeadlineFails: sp.DeadlineFails}
+		c := &Call{ID: len(w.calls), G: g, Kind: sp.Kind, Seq: sp.Seq, P: sp.P, DeadlineFails: sp.DeadlineFails, WriteFails: sp.WriteFails}
 		c.ctx, c.stop = context.WithCancel(context.Background())
 		switch sp.Kind {
 		case "close":
@@ -523,7 +592,7 @@ func (w *World) Go(g int, specs ...CallSpec) []*Call {
 		default:
 			c.term = frameTerm(sp.P, sp.Seq)
 		}
-		if sp.DeadlineFails {
+		if sp.DeadlineFails || sp.WriteFails {
 			c.term = "(send_prep false " + c.term + ")"
 		}
 		w.calls = append(w.calls, c)
@@ -541,6 +610,7 @@ func (w *World) Go(g int, specs ...CallSpec) []*Call {
 			}
 			w.mu.Unlock()
 			w.T.FailWriteDeadline(id, c.DeadlineFails)
+			w.T.FailWriteFor(id, c.WriteFails)
 			w.runCall(c)
 		}
 	}, func(string) {})
@@ -582,10 +652,33 @@ func (w *World) Release(c *Call) bool {
 	return false
 }
 
+// ReleaseNoSync lets the held Write of call c return without closing the forced group: used when what
+// follows is driven by a timer of the library, so that no snapshot depends on the timer's progress.
+func (w *World) ReleaseNoSync(c *Call) bool {
+	for _, wr := range w.T.Writes() {
+		if wr.held && wr.Seq == c.Seq && len(wr.Data) >= 16 {
+			w.force(fmt.Sprintf("WriteReturn %d", c.ID))
+			w.T.ReleaseWrite(wr.Idx)
+			return true
+		}
+	}
+	return false
+}
+
 // Held: call c sits in a transport Write that has not returned.
 func (w *World) Held(c *Call) bool {
 	for _, wr := range w.T.Writes() {
 		if wr.held && wr.Seq == c.Seq && len(wr.Data) >= 16 {
+			return true
+		}
+	}
+	return false
+}
+
+// Written: the frame of call c has reached the transport (its Write may still be open).
+func (w *World) Written(c *Call) bool {
+	for _, wr := range w.T.Writes() {
+		if wr.Seq == c.Seq && len(wr.Data) >= 16 {
 			return true
 		}
 	}
@@ -631,6 +724,33 @@ func (w *World) PeerSplit(f []byte, k int) {
 	w.sync()
 }
 
+// PeerStream makes the concatenation of the frames readable at once, cut into pieces of the given sizes
+// regardless of the frame boundaries (one TCP segment may carry the end of a frame and the start of the next).
+// The model reads the items off the same octets with its own stream reader.
+func (w *World) PeerStream(frames [][]byte, cuts []int) {
+	var all []byte
+	for _, f := range frames {
+		all = append(all, f...)
+	}
+	w.force(fmt.Sprintf("@@(peer_stream %s %s)", coqHex(all), natList(cuts)))
+	w.T.Inject(all, cuts)
+	w.sync()
+}
+
+// PeerTrunc makes the first k octets of a frame readable and then lets the transport report err:
+// the read fails inside the frame.  once: the error is reported by one Read only (a timeout).
+func (w *World) PeerTrunc(f []byte, k int, err error, once bool) {
+	w.force(fmt.Sprintf("@@(peer_stream %s [])", coqHex(f[:k])))
+	w.T.Inject(f[:k], nil)
+	if once {
+		w.T.EndOnce(err)
+	} else {
+		w.force("PeerEnd")
+		w.T.End(err)
+	}
+	w.sync()
+}
+
 func (w *World) PeerPDU(p interface{}) { w.Peer([][]byte{frameOf(p)}, nil) }
 
 // PeerEnd: after the octets injected so far the transport reports err.
@@ -640,8 +760,17 @@ func (w *World) PeerEnd(err error) {
 	w.sync()
 }
 
+// PeerEndOnce: the transport reports err to one Read call only (a timeout); for the model it is the same event:
+// Watch ends on the first report.
+func (w *World) PeerEndOnce(err error) {
+	w.force("PeerEnd")
+	w.T.EndOnce(err)
+	w.sync()
+}
+
 func (w *World) CancelCtx(c *Call) {
 	w.force(fmt.Sprintf("CancelCtx %d", c.ID))
+	c.cancelled = true
 	c.stop()
 	w.sync()
 }
